@@ -354,7 +354,7 @@ def run(ctx):
     nruns = 36 if ctx.thorough else 9
     jobs = [e2ejobs.job(rng, size='medium', jobs=rng.choice([1, 2, 4])) for _ in range(nruns)]
     # several parallel ddmin rounds with results still in flight when one is adopted
-    wide = ('(set-logic ALL)\n' + ''.join(f'(declare-const v{k} Int)\n' for k in range(10))
+    wide = ('(set-logic ALL)\n(set-info :source "Z\u00fcrich \u03bb \U0001F600")\n' + ''.join(f'(declare-const v{k} Int)\n' for k in range(10))
             + ''.join(f'(assert (> (+ v{k % 10} {k + 2}) (* v{(k + 3) % 10} {k + 3})))\n' for k in range(14)) + '(check-sat)\n')
     for k in range(3):
         jobs[k * 3 + (k % 3)] = dict(text=wide, opts=['--strategy', 'ddmin', '-j', str(2 + k)], cmd=[e2e.TOKPRED, 'all', 'v1', 'v4', str(k + 5)], env={})
